@@ -1685,15 +1685,16 @@ class PyCdlib:
 
                 if self.isohybrid_mbr is not None:
                     if enc.platform_id == 0xef:
-                        if num_seen_efi == 0:
+                        # Only the partitions that the hybridization was
+                        # asked to describe are filled in; any further EFI
+                        # entries are plain El Torito entries.
+                        if num_seen_efi == 0 and self.isohybrid_mbr.efi:
                             self.isohybrid_mbr.update_efi(current_extent,
                                                           enc.entry.sector_count,
                                                           self.pvd.space_size * self.logical_block_size)
-                        elif num_seen_efi == 1:
+                        elif num_seen_efi == 1 and self.isohybrid_mbr.mac:
                             self.isohybrid_mbr.update_mac(current_extent,
                                                           enc.entry.sector_count)
-                        else:
-                            raise pycdlibexception.PyCdlibInternalError('Only expected two EFI sections')
                         num_seen_efi += 1
                     elif enc.platform_id == 0:
                         self.isohybrid_mbr.update_rba(current_extent)
